@@ -75,6 +75,18 @@ func main() {
 		base = parent
 	}
 
+	// calls that go through process-wide shared structures beyond the coder pools (the sorted-keys
+	// scratch pool of Deterministic, the member pool of Canonicalize) are drawn more often
+	var draw []int
+	for i, c := range calls {
+		w := 1
+		if c.Kind == "det" || strings.Contains(c.Name, "canonicalize") || strings.Contains(c.Name, "reorder") {
+			w = 4
+		}
+		for k := 0; k < w; k++ {
+			draw = append(draw, i)
+		}
+	}
 	deadline := time.Now().Add(time.Duration(*seconds * float64(time.Second)))
 	var runs, heavyRuns, keptChecks atomic.Int64
 	var wg sync.WaitGroup
@@ -86,7 +98,7 @@ func main() {
 			var ring [6]kept
 			n := 0
 			for time.Now().Before(deadline) {
-				i := rng.IntN(len(calls))
+				i := draw[rng.IntN(len(draw))]
 				c := calls[i]
 				if c.Heavy {
 					if rng.IntN(8) != 0 {
@@ -101,7 +113,7 @@ func main() {
 				if o.Res != base[i] {
 					report("MISMATCH", c.Name, o.Res, base[i])
 				}
-				if o.Keep != nil && (!c.Heavy || rng.IntN(4) == 0) {
+				if o.Keep != nil && rng.IntN(3) == 0 && (!c.Heavy || rng.IntN(4) == 0) {
 					snap := o.Keep()
 					if o.Scribble != nil {
 						o.Scribble()
